@@ -42,4 +42,19 @@ theorem C08_fromCan_toCan (f : Frame) (h : f.CanCanonical) :
 theorem C08_specFrames_canCanonical (p : Packet) (hn : p.data.length ≤ 28672) : ∀ f ∈ specFrames p, f.CanCanonical :=
   Ross.specFrames_canCanonical p hn
 
+/-- standard-id frames, remote frames and multi-frame frames without data are rejected -/
+theorem C08_fromCan_rejects (c : CanFrame) :
+    (c.ext = false → fromCan c = .err .frameIsStandard) ∧
+    (c.ext = true → c.rtr = true → fromCan c = .err .frameIsRemote) ∧
+    (c.ext = true → c.rtr = false → c.id / 2^26 % 2 = 1 → c.dlc = 0 → fromCan c = .err .frameIdMissing) := by
+  obtain ⟨_, _, i3, _, _⟩ := id_fields c.id
+  refine ⟨?_, ?_, ?_⟩
+  · intro h; simp [fromCan, h]
+  · intro h1 h2; simp [fromCan, h1, h2]
+  · intro h1 h2 h3 h4
+    have hm : (((c.id >>> 26) &&& 0x0001) != 0) = true := by rw [i3]; simp [h3]
+    unfold fromCan
+    simp only [h1, h2, h4, Bool.not_true, Bool.false_eq_true, if_false, hm, if_true]
+    simp
+
 end Ross.Props
